@@ -50,6 +50,7 @@ PropNames == {"verifProp", "from", "class", "import", "global"}
 Targets == {"Color", "TextDocumentPositionParams", "Position", "MarkedStringWithLanguage", "HoverParams"}
 Marks == {"proposed", "deprecated", "since"}
 
+TypedKinds == {"none", "suffixed", "plain"}
 Edits ==
     {[k |-> "AddStructure", name |-> NewS]}
     \cup {[k |-> "AddProperty", target |-> t, name |-> n, ty |-> ty, optional |-> o] :
@@ -58,9 +59,10 @@ Edits ==
     \cup {[k |-> "AddMixin", target |-> NewS, parent |-> p] : p \in {"PartialResultParams", "WorkDoneProgressParams", "HoverOptions"}}   \* HoverOptions has a mixin of its own
     \cup {[k |-> "AddEnum", name |-> NewE, base |-> b] : b \in {"string", "uinteger"}}
     \cup {[k |-> "AddEnumValue", target |-> e] : e \in {"MarkupKind", "SymbolKind", NewE}}
+    \* typed: no typeName / a typeName ending in Request (Notification) as all committed ones do / any other typeName
     \cup {[k |-> "AddRequest", typed |-> ty, params |-> p, result |-> r] :
-            ty \in BOOLEAN, p \in {"none", "ref"}, r \in {"ref", "orNull", "null", "enumArray"}}   \* enumArray: a closed enum reached through containers only
-    \cup {[k |-> "AddNotification", typed |-> ty, params |-> p] : ty \in BOOLEAN, p \in {"none", "ref"}}
+            ty \in TypedKinds, p \in {"none", "ref"}, r \in {"ref", "orNull", "null", "enumArray"}}   \* enumArray: a closed enum reached through containers only
+    \cup {[k |-> "AddNotification", typed |-> ty, params |-> p] : ty \in TypedKinds, p \in {"none", "ref"}}
     \cup {[k |-> "Mark", on |-> w, mark |-> m] : w \in {"structure", "property", "enumValue", "request"}, m \in Marks}
     \cup {[k |-> "RemoveOptionalProperty", target |-> t] : t \in {"Hover", "CompletionItem", "Diagnostic"}}
 
@@ -123,10 +125,12 @@ QuickOK(e) ==
             \/ e.target = "Color" /\ ((e.name = "from" /\ e.ty = "string" /\ e.optional) \/ (e.name = "class" /\ e.ty = "orNull" /\ ~e.optional))
             \/ e.target \in {"Position", "TextDocumentPositionParams", "MarkedStringWithLanguage", "HoverParams"}
                /\ e.name = "verifProp" /\ e.ty = "orNull" /\ e.optional
-      [] e.k = "AddRequest" -> (e.typed /\ e.params = "ref" /\ e.result = "orNull") \/ (~e.typed /\ e.params = "none" /\ e.result = "null")
-                               \/ (e.typed /\ e.params = "none" /\ e.result = "ref")
-                               \/ (e.typed /\ e.params = "ref" /\ e.result = "enumArray")
-      [] e.k = "AddNotification" -> (e.typed /\ e.params = "ref") \/ (~e.typed /\ e.params = "none")
+      [] e.k = "AddRequest" -> (e.typed = "suffixed" /\ e.params = "ref" /\ e.result = "orNull") \/ (e.typed = "none" /\ e.params = "none" /\ e.result = "null")
+                               \/ (e.typed = "suffixed" /\ e.params = "none" /\ e.result = "ref")
+                               \/ (e.typed = "suffixed" /\ e.params = "ref" /\ e.result = "enumArray")
+                               \/ (e.typed = "plain" /\ e.params = "ref" /\ e.result = "ref")
+      [] e.k = "AddNotification" -> (e.typed = "suffixed" /\ e.params = "ref") \/ (e.typed = "none" /\ e.params = "none")
+                                    \/ (e.typed = "plain" /\ e.params = "ref")
       [] e.k = "Mark" -> (e.mark = "proposed" /\ e.on # "request") \/ (e.on = "structure" /\ e.mark = "since")
       [] e.k = "RemoveOptionalProperty" -> e.target # "Diagnostic"
       [] OTHER -> TRUE
